@@ -427,6 +427,24 @@ func generate(cfg vh.Config) []*caseJ {
 			acts, ash := genUpdActs(r, b)
 			c.Dir = &dirJ{Kind: "updActionId", Specs: ss, Acts: acts}
 			c.Shape = "updActionId/" + sh + "/" + ash
+			if ash == "pass" || ash == "status" || ash == "drop+msg" || r.Intn(4) == 0 {
+				// make the replaced action visible: the updated rules deny before the update
+				for j := range c.Src {
+					if c.Src[j].Marker != "" || !specsHave(ss, c.Src[j].ID) || r.Intn(4) == 0 {
+						continue
+					}
+					h := &c.Src[j].Links[0]
+					found := false
+					for a := range h.Acts {
+						if h.Acts[a].A == "disr" {
+							h.Acts[a].V, found = "deny", true
+						}
+					}
+					if !found {
+						h.Acts = append(h.Acts, actJ{A: "disr", V: "deny"})
+					}
+				}
+			}
 		default:
 			// run-time counterpart: a phase-1 (sometimes phase-2) trigger rule at a random position;
 			// early denies would hide every later effect, most of them become pass here
